@@ -65,7 +65,7 @@ func CheckC19(e *Env) (int, error) {
 		}
 		e.RunJobs(jobs)
 		for _, j := range jobs {
-			if j.Err != nil || j.ExitCode != 0 || len(j.Results) != j.N {
+			if abandoned := j.ExitCode == 3 && len(j.Results) > 0; j.Err != nil || (j.ExitCode != 0 && !abandoned) || (len(j.Results) != j.N && !abandoned) {
 				return 2, harnessErr("job %s %s from=%d: err=%v exit=%d results=%d/%d\n%s", j.World, j.Variant, j.From, j.Err, j.ExitCode, len(j.Results), j.N, j.Stderr)
 			}
 			for _, r := range j.Results {
